@@ -14,6 +14,7 @@ class Protocol(Component):
     __events = {}
 
     def init(self, sock=None, server=None, **kwargs):
+        self.__events = {}
         self.__server = server
         self.__sock = sock
         self.__receive_event_firewall = kwargs.get('receive_event_firewall', None)
